@@ -73,9 +73,9 @@ func (r *renderer) val(v ssa.Value, d int) string {
 		if s, ok := r.subst[x]; ok {
 			return s
 		}
-		return x.Name()
+		return canonParamName(x)
 	case *ssa.FreeVar:
-		return "free:" + x.Name()
+		return "free:" + typeShort(x.Type())
 	case *ssa.Global:
 		return "&" + x.Name()
 	case *ssa.Function:
@@ -146,8 +146,9 @@ func (r *renderer) val(v ssa.Value, d int) string {
 		// a loop-carried variable: named; expanded once (initial value | step), nested
 		// occurrences are just the name
 		if x.Comment != "" && loopCarried(x) {
+			name := loopVarName(x)
 			if r.onPath[x] || r.noExpand {
-				return "φ" + x.Comment
+				return "φ" + name
 			}
 			r.onPath[x] = true
 			defer delete(r.onPath, x)
@@ -155,13 +156,13 @@ func (r *renderer) val(v ssa.Value, d int) string {
 			seen := map[string]bool{}
 			for _, e := range x.Edges {
 				s := r.val(e, d+2)
-				if !seen[s] && s != "φ"+x.Comment {
+				if !seen[s] && s != "φ"+name {
 					seen[s] = true
 					parts = append(parts, s)
 				}
 			}
 			sort.Strings(parts)
-			return "φ" + x.Comment + "⟨" + strings.Join(parts, " | ") + "⟩"
+			return "φ" + name + "⟨" + strings.Join(parts, " | ") + "⟩"
 		}
 		if r.onPath[x] {
 			return "loop"
@@ -245,7 +246,7 @@ func (r *renderer) load(addr ssa.Value, d int) string {
 		}
 		return r.allocContent(a, d)
 	case *ssa.FreeVar:
-		return "free:" + a.Name()
+		return "free:" + typeShort(a.Type())
 	}
 	return "*" + r.val(addr, d)
 }
@@ -712,7 +713,60 @@ func mutableLocalName(a *ssa.Alloc) string {
 		}
 	}
 	if multi {
-		return name
+		// named after its type, not after the variable (renames do not matter)
+		return "local:" + typeShort(a.Type().Underlying().(*types.Pointer).Elem())
 	}
 	return ""
+}
+
+// loopVarName: loop-carried variables are named by their type and role, not by the source
+// identifier, so that renaming a local does not change a rendering: int counters "n", others by
+// type.
+func loopVarName(phi *ssa.Phi) string {
+	switch t := phi.Type().Underlying().(type) {
+	case *types.Basic:
+		if t.Info()&types.IsInteger != 0 {
+			// distinguish the few integer loop variables of one function by their initial value
+			for _, e := range phi.Edges {
+				if k, ok := constInt(e); ok {
+					return fmt.Sprintf("int%d", k)
+				}
+			}
+			return "int"
+		}
+		return t.Name()
+	case *types.Slice:
+		return "slice"
+	}
+	return "var"
+}
+
+// canonParamName: parameters are rendered by a canonical name that depends on the function and
+// the position only (frozen table for the anchored functions; (e, v, this) for native-method
+// closures; the comparator's (a, b)); renaming a parameter does not change a rendering.
+func canonParamName(x *ssa.Parameter) string {
+	fn := x.Parent()
+	idx := -1
+	for i, prm := range fn.Params {
+		if prm == x {
+			idx = i
+		}
+	}
+	if idx < 0 {
+		return x.Name()
+	}
+	if names, ok := canonParams[shortName(fn)]; ok && idx < len(names) {
+		return names[idx]
+	}
+	if fn.Parent() != nil {
+		// closures: by signature
+		sig := fn.Signature
+		if sig.Params().Len() == 3 && isLangNamed(sig.Params().At(0).Type(), "Evaluator") {
+			return []string{"e", "v", "this"}[idx]
+		}
+		if sig.Params().Len() == 2 && isLangNamed(sig.Params().At(0).Type(), "Cell") {
+			return []string{"a", "b"}[idx]
+		}
+	}
+	return x.Name()
 }
